@@ -296,7 +296,63 @@ def r3_chunk_table(ctx):
                       "multi_chunk_with_flags computes header_size from something other than 12 + chunks.len() * flags.chunk_info_size()", b.loc())
 
 
+def r4_relative_positions(ctx):
+    """a BLTE container is decoded from wherever the reader stands (containers sit back to back inside archives): the decoder may restore a
+    position it saved, but an absolute seek to an offset computed from header fields is only right when the container starts at 0"""
+    rule = "C01.R4"
+    ctx.rule(rule, "in the BLTE BinRead::read_options bodies every SeekFrom::Start operand derives from a saved stream position (stream_position / seek result)")
+    n = 0
+    for b in ctx.prog.bodies.values():
+        if b.krate != "cascette_formats" or not re.search(r"/blte/", b.file or ""):
+            continue
+        root = ctx.prog.bodies.get(b.root) if b.root else b
+        if not root or root.item != "read_options":
+            continue
+        for i, j, st in b.stmts():
+            r = st["r"]
+            if r["k"] == "Agg" and r.get("variant") == "Start" and "SeekFrom" in r.get("adt", ""):
+                n += 1
+                ctx.saw(b)
+                l = op_local(r["o"][0]) if r["o"] else None
+                sl = Slice(b, [l], transparent=True) if l is not None else None
+                saved = bool(sl) and any(re.search(r"\bSeek>?::(stream_position|seek)$", x.orig_name or x.name) for x in sl.calls)
+                ctx.check(saved, rule, [b.id, "seek-start-from-saved-position"], "absolute seek restores a saved position",
+                          "%s seeks to SeekFrom::Start(x) where x does not come from a position the reader reported (it is computed from header fields): "
+                          "decoding a container that does not start at reader position 0 - the second of two back-to-back containers, a container behind a "
+                          "prefix - reads some other container's bytes and returns them with Ok" % ctx._stable(b.id), "%s:%d" % (b.file, st["l"]))
+    ctx.floor(rule, n, 2, "SeekFrom::Start sites in BLTE read_options bodies")
+
+
+def r5_inner_payload(ctx):
+    """what is encrypted is the inner payload - mode byte + data - on every path: the decoder strips the inner mode byte whenever the first
+    decrypted byte looks like one, so a helper that encrypts the caller's bytes as they are loses the first byte of any plaintext that
+    happens to start with N/Z/4/E/F (or fails to decode it)"""
+    rule = "C01.R5"
+    ctx.rule(rule, "in BlteBuilder, on every definition path the plaintext handed to encrypt_chunk_with_key passes build_inner_payload (or another "
+                   "constructor that prepends the mode byte)")
+    n = 0
+    for b in ctx.prog.find(self_ty=r"\bBlteBuilder\b", closure=False):
+        for c in b.calls_matching(r"compression::encrypt_chunk_with_key$"):
+            if c.bb not in b.live_blocks() or not c.args or op_local(c.args[0]) is None:
+                continue
+            n += 1
+            ctx.saw(b)
+            # slice that does NOT look through the payload constructors: reaching a parameter means some path skips them
+            stop = re.compile(r"build_inner_payload$|compress_chunk$|build_\w*payload$")
+            tr = re.compile(r"\bDeref>?::deref$|\bAsRef<.*>>?::as_ref$|Vec::<T, A>::as_slice$|\bBorrow<.*>>?::borrow$|\bTry>?::branch$|\bClone>?::clone$")
+            sl = Slice(b, [op_local(c.args[0])], transparent=tr)
+            through = any(stop.search(x.name) for x in sl.calls)
+            raw_params = [p for p in sl.locals if 2 <= p <= b.argc and re.search(r"\[u8\]|Vec<u8>", b.local_ty(p) or "")]
+            ctx.check(through and not raw_params, rule, [b.id, "encrypts-inner-payload"], "the encrypted bytes are the inner payload on every path",
+                      "%s can hand the caller's bytes to the cipher without the inner mode byte (a path that bypasses build_inner_payload): the decoder "
+                      "strips a leading N/Z/4/E/F as the inner mode, so such plaintexts lose their first byte or fail to decode while the encoder returned Ok" %
+                      ctx._stable(b.id), c.loc(), sample={"payload_constructors": sorted({x.name.split("::")[-1] for x in sl.calls})[:4]})
+    ctx.floor(rule, n, 2, "encrypt_chunk_with_key call sites in BlteBuilder")
+
+
 def run(ctx):
+    r4_relative_positions(ctx)
+    r5_inner_payload(ctx)
     r1_block_index(ctx)
     r2_tables(ctx)
     r3_chunk_table(ctx)
